@@ -197,6 +197,14 @@ func jobsOverflow(tier string) []Job {
 	hs = append(hs, []string{"inj -1:4000:0:,-1:4000:0:,1:100:0:x", "inj 1:100:0:y"})
 	hs = append(hs, []string{"inj -1:4000:0:", "inj 1:100:0:y"})
 	jobs := chunk(map[string]any{"fix": "std", "init": []string{"A w/d"}, "inject": "true"}, hs, nil, 4)
+	// the other housekeeping records: an unmount of the filesystem under a watch (IN_UNMOUNT, then IN_IGNORED as the
+	// kernel sends them) in the middle of a batch, alone, and with the flag combined with IN_ISDIR; wd 2 = w/d2
+	var um [][]string
+	for _, u := range []string{"2:2000:0:,2:8000:0:", "2:2000:0:", "2:40002000:0:,2:8000:0:", "2:a000:0:"} {
+		um = append(um, []string{"inj 1:100:0:n1," + u + ",1:100:0:n2", "inj 1:100:0:later", "L"})
+		um = append(um, []string{"inj " + u, "inj 1:2:0:a"})
+	}
+	jobs = append(jobs, chunk(map[string]any{"fix": "std", "init": []string{"A w/d", "A w/d2"}, "inject": "true", "skip": []string{"marks", "tables"}}, um, nil, 4)...)
 	if tier == "thorough" {
 		// one real overflow: more notifications than fs.inotify.max_queued_events, none read meanwhile
 		real := [][]string{{"abburst w/d/a w/d/b 17000", "touch w/d/after", "A w/f", "R w/f"}}
@@ -605,7 +613,7 @@ func init() {
 		Rule:      "E1+E2: every schedule (preemption bound 2) of rename-then-delete, rename-then-rmdir, delete-then-recreate and burst histories against control calls, with consumers on Errors, so that the reader's position relative to each step is enumerated; the end-of-watch BFS with all two-operation bursts; an injected overflow marker at every position of a batch followed by further records and Add/Remove",
 		Technique: "stateless model checking (schedule enumeration) and explicit-state BFS of the real code; oracle = the multiset of values received on Errors equals the kernel overflow markers (as ErrEventOverflow) plus injected read faults, and the Watcher keeps working after an overflow",
 		Assume:    []string{"real queue overflow is exercised once in the thorough tier; its position inside a batch is enumerated with injected markers"}}
-	Checks["C14"] = &CheckDef{Prop: "C14", Jobs: func(tier string) []Job { return append(c14Jobs(tier), multiJobs(tier)...) },
+	Checks["C14"] = &CheckDef{Prop: "C14", Side: racePassMulti, Jobs: func(tier string) []Job { return append(c14Jobs(tier), multiJobs(tier)...) },
 		Rule:      "E2 differential: every history of one or two operations (thorough: three) over ten operations, as a burst and step by step, is run with Events capacity -1(default),0,1,2,4,...,65536 with an eager consumer and with capacity 0,1,8,64,65536 with the consumer attached only after the history; all runs of one history must deliver byte-identical sequences (and each must match the reference model); a Watcher whose capacity covers the history must absorb it with no consumer; cap(Events) must equal the request; then histories with one or two other Watchers being created, adding/removing the same paths and being closed at every position (synchronous close, so descriptor numbers are really reused)",
 		Technique: "exhaustive differential enumeration over configurations (buffer sizes, co-existing Watchers) on the real code",
 		Assume:    []string{"other Watchers run in the same process and share the scheduler"}}
